@@ -5,7 +5,7 @@ name=$1; tier=${2:-quick}
 prop=$(python3 -c "import json;print(json.load(open('/verif/seeded/$name/meta.json'))['property'])")
 prop=${3:-$prop}
 git -C /repo apply /verif/seeded/$name/patch.diff || { echo "patch does not apply"; exit 2; }
-( cd /verif && ./check $prop --tier $tier 2>/tmp/try_seed_$name.err | grep -E "VIOLATION|KNOWN|ok tier|FAIL tier" )
+cp -r /verif/evidence /tmp/evidence_keep_$$; ( cd /verif && ./check $prop --tier $tier 2>/tmp/try_seed_$name.err | grep -E "VIOLATION|KNOWN|ok tier|FAIL tier" )
 rc=$?
-git -C /repo checkout -- .
+git -C /repo checkout -- .; rm -rf /verif/evidence; mv /tmp/evidence_keep_$$ /verif/evidence
 exit 0
